@@ -71,3 +71,42 @@ pub assume_specification [core::time::Duration::from_millis] (ms: u64) -> (r: co
 // std::mem::take: the old value is returned (what is left behind is T::default(), not specified here)
 pub assume_specification<T: Default> [core::mem::take::<T>] (dest: &mut T) -> (r: T)
     ensures r == *old(dest);
+
+// std's lossless integer conversions `T::from(x)` / `x.into()` (impl From<S> for T): the value is `x as T` (vstd leaves these unspecified,
+// so without the axioms the result of `i32::from(u16::MAX)` is an arbitrary number and a harmless refactoring fails its postconditions)
+pub broadcast axiom fn axiom_from_u8_u16() ensures #[trigger] <u16 as vstd::std_specs::convert::FromSpec<u8>>::obeys_from_spec(), forall|v: u8| #[trigger] <u16 as vstd::std_specs::convert::FromSpec<u8>>::from_spec(v) == v as u16;
+pub broadcast axiom fn axiom_from_u8_u32() ensures #[trigger] <u32 as vstd::std_specs::convert::FromSpec<u8>>::obeys_from_spec(), forall|v: u8| #[trigger] <u32 as vstd::std_specs::convert::FromSpec<u8>>::from_spec(v) == v as u32;
+pub broadcast axiom fn axiom_from_u8_u64() ensures #[trigger] <u64 as vstd::std_specs::convert::FromSpec<u8>>::obeys_from_spec(), forall|v: u8| #[trigger] <u64 as vstd::std_specs::convert::FromSpec<u8>>::from_spec(v) == v as u64;
+pub broadcast axiom fn axiom_from_u8_u128() ensures #[trigger] <u128 as vstd::std_specs::convert::FromSpec<u8>>::obeys_from_spec(), forall|v: u8| #[trigger] <u128 as vstd::std_specs::convert::FromSpec<u8>>::from_spec(v) == v as u128;
+pub broadcast axiom fn axiom_from_u8_i16() ensures #[trigger] <i16 as vstd::std_specs::convert::FromSpec<u8>>::obeys_from_spec(), forall|v: u8| #[trigger] <i16 as vstd::std_specs::convert::FromSpec<u8>>::from_spec(v) == v as i16;
+pub broadcast axiom fn axiom_from_u8_i32() ensures #[trigger] <i32 as vstd::std_specs::convert::FromSpec<u8>>::obeys_from_spec(), forall|v: u8| #[trigger] <i32 as vstd::std_specs::convert::FromSpec<u8>>::from_spec(v) == v as i32;
+pub broadcast axiom fn axiom_from_u8_i64() ensures #[trigger] <i64 as vstd::std_specs::convert::FromSpec<u8>>::obeys_from_spec(), forall|v: u8| #[trigger] <i64 as vstd::std_specs::convert::FromSpec<u8>>::from_spec(v) == v as i64;
+pub broadcast axiom fn axiom_from_u8_i128() ensures #[trigger] <i128 as vstd::std_specs::convert::FromSpec<u8>>::obeys_from_spec(), forall|v: u8| #[trigger] <i128 as vstd::std_specs::convert::FromSpec<u8>>::from_spec(v) == v as i128;
+pub broadcast axiom fn axiom_from_u16_u32() ensures #[trigger] <u32 as vstd::std_specs::convert::FromSpec<u16>>::obeys_from_spec(), forall|v: u16| #[trigger] <u32 as vstd::std_specs::convert::FromSpec<u16>>::from_spec(v) == v as u32;
+pub broadcast axiom fn axiom_from_u16_u64() ensures #[trigger] <u64 as vstd::std_specs::convert::FromSpec<u16>>::obeys_from_spec(), forall|v: u16| #[trigger] <u64 as vstd::std_specs::convert::FromSpec<u16>>::from_spec(v) == v as u64;
+pub broadcast axiom fn axiom_from_u16_u128() ensures #[trigger] <u128 as vstd::std_specs::convert::FromSpec<u16>>::obeys_from_spec(), forall|v: u16| #[trigger] <u128 as vstd::std_specs::convert::FromSpec<u16>>::from_spec(v) == v as u128;
+pub broadcast axiom fn axiom_from_u16_i32() ensures #[trigger] <i32 as vstd::std_specs::convert::FromSpec<u16>>::obeys_from_spec(), forall|v: u16| #[trigger] <i32 as vstd::std_specs::convert::FromSpec<u16>>::from_spec(v) == v as i32;
+pub broadcast axiom fn axiom_from_u16_i64() ensures #[trigger] <i64 as vstd::std_specs::convert::FromSpec<u16>>::obeys_from_spec(), forall|v: u16| #[trigger] <i64 as vstd::std_specs::convert::FromSpec<u16>>::from_spec(v) == v as i64;
+pub broadcast axiom fn axiom_from_u16_i128() ensures #[trigger] <i128 as vstd::std_specs::convert::FromSpec<u16>>::obeys_from_spec(), forall|v: u16| #[trigger] <i128 as vstd::std_specs::convert::FromSpec<u16>>::from_spec(v) == v as i128;
+pub broadcast axiom fn axiom_from_u32_u64() ensures #[trigger] <u64 as vstd::std_specs::convert::FromSpec<u32>>::obeys_from_spec(), forall|v: u32| #[trigger] <u64 as vstd::std_specs::convert::FromSpec<u32>>::from_spec(v) == v as u64;
+pub broadcast axiom fn axiom_from_u32_u128() ensures #[trigger] <u128 as vstd::std_specs::convert::FromSpec<u32>>::obeys_from_spec(), forall|v: u32| #[trigger] <u128 as vstd::std_specs::convert::FromSpec<u32>>::from_spec(v) == v as u128;
+pub broadcast axiom fn axiom_from_u32_i64() ensures #[trigger] <i64 as vstd::std_specs::convert::FromSpec<u32>>::obeys_from_spec(), forall|v: u32| #[trigger] <i64 as vstd::std_specs::convert::FromSpec<u32>>::from_spec(v) == v as i64;
+pub broadcast axiom fn axiom_from_u32_i128() ensures #[trigger] <i128 as vstd::std_specs::convert::FromSpec<u32>>::obeys_from_spec(), forall|v: u32| #[trigger] <i128 as vstd::std_specs::convert::FromSpec<u32>>::from_spec(v) == v as i128;
+pub broadcast axiom fn axiom_from_u64_u128() ensures #[trigger] <u128 as vstd::std_specs::convert::FromSpec<u64>>::obeys_from_spec(), forall|v: u64| #[trigger] <u128 as vstd::std_specs::convert::FromSpec<u64>>::from_spec(v) == v as u128;
+pub broadcast axiom fn axiom_from_u64_i128() ensures #[trigger] <i128 as vstd::std_specs::convert::FromSpec<u64>>::obeys_from_spec(), forall|v: u64| #[trigger] <i128 as vstd::std_specs::convert::FromSpec<u64>>::from_spec(v) == v as i128;
+pub broadcast axiom fn axiom_from_i8_i16() ensures #[trigger] <i16 as vstd::std_specs::convert::FromSpec<i8>>::obeys_from_spec(), forall|v: i8| #[trigger] <i16 as vstd::std_specs::convert::FromSpec<i8>>::from_spec(v) == v as i16;
+pub broadcast axiom fn axiom_from_i8_i32() ensures #[trigger] <i32 as vstd::std_specs::convert::FromSpec<i8>>::obeys_from_spec(), forall|v: i8| #[trigger] <i32 as vstd::std_specs::convert::FromSpec<i8>>::from_spec(v) == v as i32;
+pub broadcast axiom fn axiom_from_i8_i64() ensures #[trigger] <i64 as vstd::std_specs::convert::FromSpec<i8>>::obeys_from_spec(), forall|v: i8| #[trigger] <i64 as vstd::std_specs::convert::FromSpec<i8>>::from_spec(v) == v as i64;
+pub broadcast axiom fn axiom_from_i8_i128() ensures #[trigger] <i128 as vstd::std_specs::convert::FromSpec<i8>>::obeys_from_spec(), forall|v: i8| #[trigger] <i128 as vstd::std_specs::convert::FromSpec<i8>>::from_spec(v) == v as i128;
+pub broadcast axiom fn axiom_from_i16_i32() ensures #[trigger] <i32 as vstd::std_specs::convert::FromSpec<i16>>::obeys_from_spec(), forall|v: i16| #[trigger] <i32 as vstd::std_specs::convert::FromSpec<i16>>::from_spec(v) == v as i32;
+pub broadcast axiom fn axiom_from_i16_i64() ensures #[trigger] <i64 as vstd::std_specs::convert::FromSpec<i16>>::obeys_from_spec(), forall|v: i16| #[trigger] <i64 as vstd::std_specs::convert::FromSpec<i16>>::from_spec(v) == v as i64;
+pub broadcast axiom fn axiom_from_i16_i128() ensures #[trigger] <i128 as vstd::std_specs::convert::FromSpec<i16>>::obeys_from_spec(), forall|v: i16| #[trigger] <i128 as vstd::std_specs::convert::FromSpec<i16>>::from_spec(v) == v as i128;
+pub broadcast axiom fn axiom_from_i32_i64() ensures #[trigger] <i64 as vstd::std_specs::convert::FromSpec<i32>>::obeys_from_spec(), forall|v: i32| #[trigger] <i64 as vstd::std_specs::convert::FromSpec<i32>>::from_spec(v) == v as i64;
+pub broadcast axiom fn axiom_from_i32_i128() ensures #[trigger] <i128 as vstd::std_specs::convert::FromSpec<i32>>::obeys_from_spec(), forall|v: i32| #[trigger] <i128 as vstd::std_specs::convert::FromSpec<i32>>::from_spec(v) == v as i128;
+pub broadcast axiom fn axiom_from_i64_i128() ensures #[trigger] <i128 as vstd::std_specs::convert::FromSpec<i64>>::obeys_from_spec(), forall|v: i64| #[trigger] <i128 as vstd::std_specs::convert::FromSpec<i64>>::from_spec(v) == v as i128;
+pub broadcast axiom fn axiom_from_u8_usize() ensures #[trigger] <usize as vstd::std_specs::convert::FromSpec<u8>>::obeys_from_spec(), forall|v: u8| #[trigger] <usize as vstd::std_specs::convert::FromSpec<u8>>::from_spec(v) == v as usize;
+pub broadcast axiom fn axiom_from_u16_usize() ensures #[trigger] <usize as vstd::std_specs::convert::FromSpec<u16>>::obeys_from_spec(), forall|v: u16| #[trigger] <usize as vstd::std_specs::convert::FromSpec<u16>>::from_spec(v) == v as usize;
+pub broadcast axiom fn axiom_from_u8_isize() ensures #[trigger] <isize as vstd::std_specs::convert::FromSpec<u8>>::obeys_from_spec(), forall|v: u8| #[trigger] <isize as vstd::std_specs::convert::FromSpec<u8>>::from_spec(v) == v as isize;
+pub broadcast axiom fn axiom_from_i8_isize() ensures #[trigger] <isize as vstd::std_specs::convert::FromSpec<i8>>::obeys_from_spec(), forall|v: i8| #[trigger] <isize as vstd::std_specs::convert::FromSpec<i8>>::from_spec(v) == v as isize;
+pub broadcast axiom fn axiom_from_i16_isize() ensures #[trigger] <isize as vstd::std_specs::convert::FromSpec<i16>>::obeys_from_spec(), forall|v: i16| #[trigger] <isize as vstd::std_specs::convert::FromSpec<i16>>::from_spec(v) == v as isize;
+pub broadcast group group_int_from { axiom_from_u8_u16, axiom_from_u8_u32, axiom_from_u8_u64, axiom_from_u8_u128, axiom_from_u8_i16, axiom_from_u8_i32, axiom_from_u8_i64, axiom_from_u8_i128, axiom_from_u16_u32, axiom_from_u16_u64, axiom_from_u16_u128, axiom_from_u16_i32, axiom_from_u16_i64, axiom_from_u16_i128, axiom_from_u32_u64, axiom_from_u32_u128, axiom_from_u32_i64, axiom_from_u32_i128, axiom_from_u64_u128, axiom_from_u64_i128, axiom_from_i8_i16, axiom_from_i8_i32, axiom_from_i8_i64, axiom_from_i8_i128, axiom_from_i16_i32, axiom_from_i16_i64, axiom_from_i16_i128, axiom_from_i32_i64, axiom_from_i32_i128, axiom_from_i64_i128, axiom_from_u8_usize, axiom_from_u16_usize, axiom_from_u8_isize, axiom_from_i8_isize, axiom_from_i16_isize }
